@@ -78,7 +78,7 @@ def unit(draw, allow_empty=True, colon=True):
         u = draw(st.sampled_from(["M", "FT", "US/M", "K/M3", "OHMM", "G/CM3", "deg", "mm", "V/V", "0.1IN", "1/s",
                                   "m3/m3", "API", "degC", "%"]))
     elif kind == 6 and colon:
-        u = draw(st.sampled_from(["hh:mm", "h:m", "a:b", "HH:MM", "m.s", "kg.m/s", "a.b.c", "x:y.z"]))
+        u = draw(st.sampled_from(["hh:mm", "h:m", "a:b", "HH:MM", "m.s", "kg.m/s", "a.b.c", "x:y.z", "hh:mm:ss", "a:b:c", "d:h:m"]))
     else:
         u = draw(st.text(UNIT_CHARS + ".", min_size=1, max_size=8))
     if not _ok_unit(u):
